@@ -1,8 +1,9 @@
 import ZV.Model.C10
 /-! line protocol for C10:  `c10 <specs> <verify-matrix> <ops>`
-    * specs: certificates separated by `,`, each `subj.key.iss.sign.ca.bc.mpl.nb.na.serial.dns.bad`
-      (`sign` and `bad` only tell the harness how to produce the real signature; the model sees the
-      verify matrix instead); the index of a certificate is its model fingerprint;
+    * specs: certificates separated by `,`, each `subj.key.iss.sign.ca.bc.mpl.nb.na.serial.dns.flags`
+      (`sign` and `flags` = bad-signature + 2*keyUsage flavour + 8*X.509v1 only tell the harness how to
+      produce the real certificate and signature; the model sees the verify matrix instead: the graph
+      depends on names and key verification only); the index of a certificate is its model fingerprint;
     * verify matrix: per certificate (`,`) the node keys `s:k` (`+`) whose key verifies it, `-` if none;
     * ops: `a<i>` (AddCert) / `r<i>` (AddRoot) separated by `,`.
     Output: the canonical dump (see go/props/c10/dump.go `Canon`) or `panic`. -/
@@ -10,7 +11,7 @@ namespace ZV.C10
 
 def parseCert (idx : Nat) (s : String) : Option Cert :=
   match (s.splitOn ".").mapM parseInt with
-  | some [subj, key, iss, _sign, ca, bc, mpl, nb, na, serial, dns, _bad] =>
+  | some [subj, key, iss, _sign, ca, bc, mpl, nb, na, serial, dns, _flags] =>
     some { fp := idx, subj := subj.toNat, key := key.toNat, iss := iss.toNat, isCA := ca == 1, bcValid := bc == 1,
            maxPathLen := mpl, notBefore := nb, notAfter := na, serial := serial.toNat, dns := dns }
   | _ => none
